@@ -337,6 +337,7 @@ RULES = [
     ("C18.KWVIEW", 3, common.shared("c03", "rule_kwview", "C18.KWVIEW", keep=lambda o: o.construct.startswith("multipitch."))),
     ("C18.NOMUT", 4, common.shared("c15", "rule_nomut", "C18.NOMUT", keep=lambda o: o.construct.startswith("multipitch."))),
     ("C18.MATCHSRC", 2, rule_matchsrc),
+    ("C18.FRAMECOUNT", 5, common.shared("c05", "rule_framecount", "C18.FRAMECOUNT", keep=lambda o: o.construct.startswith("multipitch."))),
     ("C18.COUNTFORM", 1, rule_countform),
     ("C18.SAMEWINDOW", 8, rule_samewindow),
     ("C18.IDENT", 6, rule_ident),
